@@ -720,6 +720,16 @@ class InterfaceClass(_InterfaceClassBase):
                 else {}
             )
             if (
+                'providedBy' in needs_custom_class and
+                '__adapt__' not in needs_custom_class and
+                not getattr(cls, '_CALL_CUSTOM_ADAPT', None)
+            ):
+                # The C implementation of ``__adapt__`` inlines the
+                # default ``providedBy``; the Python one calls the
+                # method and so honours the override.
+                needs_custom_class['__adapt__'] = InterfaceBasePy.__adapt__
+
+            if (
                 '__adapt__' in needs_custom_class or
                 getattr(cls, '_CALL_CUSTOM_ADAPT', None)
             ):
